@@ -3,7 +3,7 @@ from bounded import gen
 from checks.e2e_common import run_e2e_property
 
 EXPLANATION = (
-    "K6/K8 for entity conditions. B tier (bounded): for each program of the scope (entity prototypes x enable "
+    "P tier (unbounded): EntityPlacer._try_inline_comparison returns data only for `signal CMP int-constant -> 1` deciders with at most one consumer in the usage analysis, and the data are that comparison. K6/K8 for entity conditions. B tier (bounded): for each program of the scope (entity prototypes x enable "
     "expressions, entities sharing sources, any()/all() inlining, chest outputs reused in several merges) the real "
     "pipeline's blueprint is decoded; the entity at the user-given tile must exist exactly once and its circuit "
     "condition, evaluated by the S2 model on the network actually wired to it, must be true exactly when the S3 value "
@@ -14,4 +14,5 @@ EXPLANATION = (
 def run(tier):
     progs = gen.c06_scope(tier)
     return run_e2e_property("C06", tier, EXPLANATION, "DESIGN §4 C06",
-                            [("e2e-entity-conditions", progs, "entity prototypes x enable expressions, shared sources, entity outputs")])
+                            [("e2e-entity-conditions", progs, "entity prototypes x enable expressions, shared sources, entity outputs")],
+                            contract_modules=["contracts.c06"])
